@@ -541,7 +541,35 @@ def _slice_callees(b, fd, ops, limit=400):
                 for o in x['args']:
                     if o.get('k') in ('copy', 'move'):
                         st.append(o['pl']['l'])
+        # a buffer that is written through a mutable reference (`buf.assign(x.gcd_ref(n))`): the writing call defines what is read from it later
+        key = _place_key(fd, l)
+        if key is not None:
+            for bi, t in b.calls():
+                a0 = (t.get('args') or [None])[0]
+                if not a0 or a0.get('k') not in ('copy', 'move') or a0['pl'].get('p'):
+                    continue
+                d = [x for kind, _, x in fd.defs.get(a0['pl']['l'], []) if kind == 'assign']
+                if len(d) == 1 and d[0]['rv'].get('k') == 'ref' and d[0]['rv'].get('mut') and _place_key(fd, d[0]['rv']['pl']['l']) == key:
+                    names.add((t.get('callee') or '').split('::')[-1])
+                    for o in t['args'][1:]:
+                        if o.get('k') in ('copy', 'move'):
+                            st.append(o['pl']['l'])
     return names
+
+
+def _place_key(fd, l):
+    """identity of the storage a local stands for: the local itself when it is a variable of the body, or the captured variable of the
+    enclosing function a closure reads it from (`copy (*_1).i`)"""
+    d = [x for kind, _, x in fd.defs.get(l, []) if kind == 'assign']
+    if not d:
+        return ('local', l)
+    if len(d) == 1 and d[0]['rv'].get('k') == 'use':
+        o = d[0]['rv']['op']
+        if o.get('k') in ('copy', 'move') and o['pl']['l'] == 1:
+            f = [pj for pj in o['pl'].get('p') or [] if pj.get('k') == 'field']
+            if len(f) == 1:
+                return ('upvar', f[0]['i'])
+    return None
 
 
 CMP_CALLS = ('Ord::cmp', 'PartialOrd::partial_cmp', 'PartialOrd::gt', 'PartialOrd::ge', 'PartialOrd::lt', 'PartialOrd::le', 'PartialEq::eq', 'PartialEq::ne')
@@ -573,9 +601,13 @@ def loop_unit_tests(prog, eng, b, fd, blocks):
             judge(_slice_callees(b, fd, t['args']), at, cal.split('::')[-1])
             continue
         tgt = local_target(eng, t)
-        if tgt and tgt in prog.bodies and prog.bodies[tgt].local_ty(0) == 'bool' and prog.bodies[tgt].kind != 'Closure':
+        is_closure = bool(tgt) and tgt in prog.bodies and prog.bodies[tgt].kind == 'Closure'
+        if is_closure and not cal.endswith(('Fn::call', 'FnMut::call_mut', 'FnOnce::call_once')):
+            continue
+        if tgt and tgt in prog.bodies and prog.bodies[tgt].local_ty(0) == 'bool':
             hb, hfd = prog.bodies[tgt], eng.fndep(tgt)
             outer = _slice_callees(b, fd, t['args'])
+            captured = _captured_atoms(b, fd, tgt) if is_closure else {}
             for hbi, ht in hb.calls():
                 hcal = ht.get('callee') or ''
                 if not hcal.endswith(CMP_CALLS):
@@ -583,11 +615,27 @@ def loop_unit_tests(prog, eng, b, fd, blocks):
                 at = set()
                 for a in ht['args']:
                     at |= hfd.read_op(a)
+                for x in list(at):
+                    # a value the closure captured (`one`): what the enclosing function put there
+                    if strip(x)[0] == 'p' and x[1] == 1 and len(x) > 2 and x[2] and str(x[2][0]).isdigit():
+                        at |= captured.get(int(x[2][0]), set())
                 names = _slice_callees(hb, hfd, ht['args'])
                 if any(strip(x)[0] == 'p' for x in at):
                     names = names | outer          # the helper's operands come from the caller's candidate
                 judge(names, at, '%s>%s' % (tgt.split('::')[-1], hcal.split('::')[-1]))
     return cand, gcd
+
+
+def _captured_atoms(b, fd, closure):
+    """captured field -> atoms of the value the enclosing function `b` stores there when it makes the closure"""
+    out = {}
+    for bl in b.blocks:
+        for s in bl['stmts']:
+            rv = s.get('rv') or {}
+            if s.get('k') == 'assign' and rv.get('k') == 'agg' and rv.get('ak') == 'closure' and rv.get('name') == closure:
+                for i, o in enumerate(rv.get('ops') or []):
+                    out.setdefault(i, set()).update(fd.read_op(o))
+    return out
 
 
 def _is_twice_plus_one(zf, op):
@@ -844,8 +892,10 @@ def rule_key_generation(ctx, cfg='prod-all'):
         okg = okg and has
     gcds = [t for bi, t in ck.calls() if (t.get('callee') or '').endswith('gcd_ref')]
     if pushes is not None:
-      yield Ob('RF-Q', '%s#g_i-exit' % CK, okg and len(gcds) >= 1, 'a g_i is stored only after the test g_i > 1 and gcd(g_i, N) == 1', ck.span,
-             fact={'dominating_comparisons': detail, 'gcd_calls': len(gcds)}, expected='comparison gate dominating the push')
+      # the gcd may be taken in a local predicate the loop calls (`coprime_to_N(&g_i)`): then the loop's own tests are the evidence
+      in_helper = bool(loop_tests) and all(g for c, g in loop_tests)
+      yield Ob('RF-Q', '%s#g_i-exit' % CK, okg and (len(gcds) >= 1 or in_helper), 'a g_i is stored only after the test g_i > 1 and gcd(g_i, N) == 1', ck.span,
+             fact={'dominating_comparisons': detail, 'gcd_calls': len(gcds), 'gcd_tests_in_loop': [g for c, g in loop_tests][:3]}, expected='comparison gate dominating the push')
 
 
 def rule_random_helpers(ctx, cfg='prod-all'):
@@ -917,10 +967,21 @@ def rule_random_helpers(ctx, cfg='prod-all'):
     RI = 'utils::random::rand_int'
     bb = prog.bodies[RI]
     fdd = eng.fndep(RI)
-    rbel = [t for bi, t in bb.calls() if (t.get('callee') or '').endswith('random_below') or (local_target(eng, t) or '').endswith('random_number')]
+    # the draw may sit in the function or in a closure it hands to the helper that owns the generator (`with_rand_state(|rand| ..)`)
+    rbel = []
+    for xb in [bb] + list(prog.closures_of(RI)):
+        xfd = eng.fndep(xb.path)
+        cap = _captured_atoms(bb, fdd, xb.path) if xb is not bb else {}
+        for bi, t in xb.calls():
+            if (t.get('callee') or '').endswith('random_below') or (local_target(eng, t) or '').endswith('random_number'):
+                at = set(xfd.read_op(t['args'][0]))
+                for x in list(at):
+                    if xb is not bb and strip(x)[0] == 'p' and x[1] == 1 and len(x) > 2 and x[2] and str(x[2][0]).isdigit():
+                        at |= cap.get(int(x[2][0]), set())
+                rbel.append((t, at))
     ok = len(rbel) == 1
     if rbel:
-        at = fdd.read_op(rbel[0]['args'][0])
+        at = rbel[0][1]
         ka, kb = bb.param_index('a'), bb.param_index('b')
         ok = ok and any(strip(a)[0] == 'p' and strip(a)[1] == ka for a in at) and any(strip(a)[0] == 'p' and strip(a)[1] == kb for a in at) and ('c', '1') in at
     ret = eng.summary(RI)['ret'].get((), set())
